@@ -318,8 +318,14 @@ Definition attr_only (D : domains) (q : query) (x : var) : bool :=
               && forallb (fun v => match v with VO _ => true | _ => false end) (D x)
   | None => false
   end.
+(* every variable a query mentions: selected, free in the condition, or QUANTIFIED in it (exists / for_all) *)
+Definition mentions (q : query) (x : var) : bool :=
+  nmem x (flat_map opnd_vars (q_sels q) ++ match q_cond q with Some c => cond_vars c | None => [] end).
+(* over a sequence of evaluated queries the scan applies to x only if EVERY query that mentions x at all -- quantified
+   occurrences included -- has x in the checked class: a for_all whose body does not read its variable first still has to
+   bind every element of the universal domain to decide, and the log has no event for that *)
 Definition examined_okb (D : domains) (qs : list query) (xs : list var) (t : list event) : bool :=
-  forallb (fun x => negb (forallb (fun q => attr_only D q x || negb (nmem x (query_vars q))) qs
+  forallb (fun x => negb (forallb (fun q => attr_only D q x || negb (mentions q x)) qs
                            && existsb (fun q => attr_only D q x) qs)
                     || examined_scan D x None t) xs.
 
